@@ -734,19 +734,19 @@ Section Dead.
     - (* ALock *)
       destruct (todo (thr s i)) as [|v r]; [discriminate|].
       destruct (mx && match holder s with Some _ => true | None => false end); [discriminate|].
-      injection H as <-. cbn [broken wire tx done thr]. repeat split; auto.
-      intros j. unfold upd. destruct (Nat.eqb j i); [exact I|apply Hd].
+      injection H as <-. unfold AllDead; cbn [broken wire tx done thr]. repeat split; auto.
+      intros j. cbn [thr]. unfold upd. destruct (Nat.eqb j i); [cbn; exact Logic.I|apply Hd].
     - (* AMarshal *)
-      injection H as <-. cbn [broken wire tx done thr]. repeat split; auto.
+      injection H as <-. unfold AllDead; cbn [broken wire tx done thr]. repeat split; auto.
       apply Hset. destruct (msh v); exact I.
     - (* AHeaderFail *)
       destruct ((k <? 4) && (k =? 0)) eqn:E; [|discriminate].
       apply andb_true_iff in E as [_ E]. apply N.eqb_eq in E. subst k.
-      injection H as <-. cbn [broken wire tx done thr]. rewrite takeN_0, app_nil_r.
+      injection H as <-. unfold AllDead; cbn [broken wire tx done thr]. rewrite app_nil_r.
       repeat split; auto. apply Hset. exact I.
     - (* AUnlock *)
       destruct ok; [contradiction|].
-      injection H as <-. cbn [broken wire tx done thr]. repeat split; auto.
+      injection H as <-. unfold AllDead; cbn [broken wire tx done thr]. repeat split; auto.
       + apply Hset. exact I.
       + right. eexists. split; reflexivity.
   Qed.
